@@ -493,13 +493,17 @@ func (interp *Interpreter) resizeFrame() {
 // Eval evaluates Go code represented as a string. Eval returns the last result
 // computed by the interpreter, and a non nil error in case of failure.
 func (interp *Interpreter) Eval(src string) (res reflect.Value, err error) {
-	return interp.eval(src, "", true)
+	return interp.eval(src, "", true, interp.runid())
 }
 
 // EvalPath evaluates Go code located at path and returns the last result computed
 // by the interpreter, and a non nil error in case of failure.
 // The main function of the main package is executed if present.
 func (interp *Interpreter) EvalPath(path string) (res reflect.Value, err error) {
+	return interp.evalPath(path, interp.runid())
+}
+
+func (interp *Interpreter) evalPath(path string, id uint64) (res reflect.Value, err error) {
 	if !isFile(interp.opt.filesystem, path) {
 		_, err := interp.importSrc(mainID, path, NoTest)
 		return res, err
@@ -509,7 +513,7 @@ func (interp *Interpreter) EvalPath(path string) (res reflect.Value, err error) 
 	if err != nil {
 		return res, err
 	}
-	return interp.eval(string(b), path, false)
+	return interp.eval(string(b), path, false, id)
 }
 
 // EvalPathWithContext evaluates Go code located at path and returns the last
@@ -521,10 +525,11 @@ func (interp *Interpreter) EvalPathWithContext(ctx context.Context, path string)
 	interp.cancelChan = !interp.opt.fastChan
 	interp.mutex.Unlock()
 
+	id := interp.runid()
 	done := make(chan struct{})
 	go func() {
 		defer close(done)
-		res, err = interp.EvalPath(path)
+		res, err = interp.evalPath(path, id)
 	}()
 
 	select {
@@ -550,7 +555,7 @@ func isFile(filesystem fs.FS, path string) bool {
 	return err == nil && fi.Mode().IsRegular()
 }
 
-func (interp *Interpreter) eval(src, name string, inc bool) (res reflect.Value, err error) {
+func (interp *Interpreter) eval(src, name string, inc bool, id uint64) (res reflect.Value, err error) {
 	prog, err := interp.compileSrc(src, name, inc)
 	if err != nil {
 		return res, err
@@ -560,7 +565,7 @@ func (interp *Interpreter) eval(src, name string, inc bool) (res reflect.Value, 
 		return res, err
 	}
 
-	return interp.Execute(prog)
+	return interp.execute(prog, id)
 }
 
 // EvalWithContext evaluates Go code represented as a string. It returns
@@ -574,6 +579,7 @@ func (interp *Interpreter) EvalWithContext(ctx context.Context, src string) (ref
 	interp.cancelChan = !interp.opt.fastChan
 	interp.mutex.Unlock()
 
+	id := interp.runid()
 	done := make(chan struct{})
 	go func() {
 		defer func() {
@@ -584,7 +590,7 @@ func (interp *Interpreter) EvalWithContext(ctx context.Context, src string) (ref
 			}
 			close(done)
 		}()
-		v, err = interp.Eval(src)
+		v, err = interp.eval(src, "", true, id)
 	}()
 
 	select {
